@@ -94,6 +94,8 @@ type chanParams struct {
 	subdiv, suboff int
 	nbases        int
 	proj, basis   *mat.Dense
+	// source, when not empty, is the name of the data source that the OFF header must state
+	source string
 }
 
 func genChanParams() chanParams {
@@ -405,6 +407,19 @@ func checkLJH22File(path string, p chanParams, want []wantRec, source string) {
 	hint("Subframe divisions", p.subdiv)
 	hint("Subframe offset", p.suboff)
 	hint("Number of samples per point", 1)
+	// doc/LJH.md: "Row number (from 0-31 inclusive): 12" next to "Number of rows: 32": the stated range is
+	// that of the channel's own array
+	for _, rg := range []struct {
+		key string
+		n   int
+	}{{"Row number", p.rows}, {"Column number", p.cols}} {
+		if got, want := f.ranges[rg.key], fmt.Sprintf("0-%d inclusive", rg.n-1); got != want {
+			simrt.Fail("C05.ljh22-header", "files:ljh22-header:"+rg.key+" range", "LJH2.2 header line %q states the range %q, the channel's array has the range %q", rg.key, got, want)
+		}
+	}
+	if source != "" && f.header["Data source"] != source {
+		simrt.Fail("C05.ljh22-header", "files:ljh22-header:Data source", "LJH2.2 header data source %q, true %q", f.header["Data source"], source)
+	}
 	if f.header["Channel name"] != p.name {
 		simrt.Fail("C05.ljh22-header", "files:ljh22-header:Channel name", "LJH2.2 header channel name %q, true %q", f.header["Channel name"], p.name)
 	}
@@ -505,6 +520,12 @@ func checkOFFFile(path string, p chanParams, want []wantRec) {
 	chk(num("ReadoutInfo", "SubframeOffset"), float64(p.suboff), "SubframeOffset")
 	if s, _ := f.hdr["ChannelName"].(string); s != p.name {
 		simrt.Fail("C05.off-header", "files:off-header:ChannelName", "OFF header channel name %q, true %q", s, p.name)
+	}
+	if p.source != "" {
+		ci, _ := f.hdr["CreationInfo"].(map[string]interface{})
+		if s, _ := ci["SourceName"].(string); s != p.source {
+			simrt.Fail("C05.off-header", "files:off-header:SourceName", "OFF header source name %q, true %q", s, p.source)
+		}
 	}
 	pr := p.proj.RawMatrix().Data
 	bs := p.basis.RawMatrix().Data
